@@ -109,6 +109,17 @@ Theorem C15_default_count_iter_last_is_stop_partial :
 Proof. exact @default_count_iter_last_is_stop. Qed.
 Print Assumptions C15_default_count_iter_last_is_stop_partial.
 
+(* the default count is minimal ("the number of steps between start and stop"): without jitter
+   every value before the last is strictly below stop - stop is reached by the last value only *)
+Theorem C15_default_count_stop_only_last :
+  forall (F : Type) (fo : fops F), order_laws fo -> grow_laws fo ->
+  forall start stop factor, valid fo start stop factor = true ->
+  forall j take fuel draws, jitter_off fo j = true ->
+    let o := run fo (mkP ApiList start stop CNone factor j take) fuel draws in
+    o_end o = EStop -> all_but_last_below fo stop (o_vals o) = true.
+Proof. exact @default_count_stop_only_last. Qed.
+Print Assumptions C15_default_count_stop_only_last.
+
 (* the full statement fails in binary64: a subnormal start times 1.1 rounds back to
    itself, stop is never reached; the model (as the code) raises ValueError *)
 Theorem C15_default_count_refuted :
